@@ -234,6 +234,25 @@ def check(ctx, c):
         rq2 = cli.run([*pre, *mpflag, "lint-file", "--quiet", "--", *args], cwd)
         if rq2.out.strip() or rq2.code != r.code:
             ctx.fail(c, f"lint-file --quiet: output {rq2.out[:200]!r}, exit {rq2.code} vs {r.code}")
+        tw = state.get("twin")
+        if tw and tw[0] in per_file and tw[1] in per_file:
+            # F = a file, and a file from another directory in which an UNNAMED file has the first one's base name
+            d2 = str(Path(tw[1]).parent)
+            mates = sorted(p for p in per_file if str(Path(p).parent) == d2 and p != tw[1] and os.path.isfile(root / p) and not os.path.islink(root / p))
+            if mates:
+                F2 = [tw[0], mates[0]]
+                a2 = [str(root / p) if c["absolute"] else os.path.relpath(root / p, cwd) for p in F2]
+                r3 = cli.run([*pre, *mpflag, "lint-file", "--", *a2], cwd)
+                ctx.label("lint-file:same-base-name-in-two-directories")
+                if r3.crash is not None or r3.code not in (0, 1):
+                    ctx.fail(c, f"lint-file failed: {r3.brief()}")
+                L3 = LP.parse_lines(r3.out)
+                got3 = {(next(iter(norm_paths([p], cwd, root))), f"missing license {ident}") for ident, p in L3["missing"]}
+                for cat, msg in (("read_errors", "read error"), ("no_licence", "no license identifier"), ("no_copyright", "no copyright notice")):
+                    got3 |= {(next(iter(norm_paths([p], cwd, root))), msg) for p in L3[cat]}
+                want3 = {(p, m) for p in F2 for m in per_file[p]}
+                if got3 != want3 or (r3.code == 1) != bool(want3):
+                    ctx.fail(c, f"lint-file {a2} (cwd={os.path.relpath(cwd, base)}, {pre}) exit {r3.code} reported {sorted(got3)}; lint reports for those files {sorted(want3)}")
     finally:
         tree.rmtree(base)
 
